@@ -621,6 +621,56 @@ func par3(c *Ctx) {
 		c.Undecided("anchor:parser", token.NoPos, "parser functions not found")
 		return
 	}
+	// the matcher constructors hand their arguments over unchanged (the index in particular must be the
+	// command-wide one the parser passes, not a narrowed copy)
+	for _, name := range []string{"NewOpt", "NewOptions", "NewArg"} {
+		cf := c.fnOpt("internal/matcher", name)
+		if cf == nil {
+			c.Undecided("anchor:matcher."+name, token.NoPos, "constructor not found")
+			continue
+		}
+		c.Mark(cf)
+		var problems []string
+		rps := ir.ReturnPoints(cf)
+		if len(rps) != 1 {
+			problems = append(problems, "more than one way of returning")
+		}
+		for _, r := range rps {
+			mi, isMI := r.Results[0].(*ssa.MakeInterface)
+			var lit *ssa.Alloc
+			if isMI {
+				lit, _ = mi.X.(*ssa.Alloc)
+			}
+			if lit == nil {
+				problems = append(problems, "does not return a fresh matcher literal")
+				continue
+			}
+			fields, whole := litFields(lit)
+			if len(whole) > 0 {
+				problems = append(problems, "the literal is assigned as a whole")
+			}
+			used := map[*ssa.Parameter]int{}
+			for f, vs := range fields {
+				if len(vs) != 1 {
+					problems = append(problems, "field "+f+" is stored more than once")
+					continue
+				}
+				prm, isP := vs[0].(*ssa.Parameter)
+				if !isP {
+					problems = append(problems, "field "+f+" is not one of the constructor's arguments as given")
+					continue
+				}
+				used[prm]++
+			}
+			for _, prm := range cf.Params {
+				if used[prm] != 1 {
+					problems = append(problems, "argument "+prm.Name()+" is not stored exactly once")
+				}
+			}
+		}
+		sort.Strings(problems)
+		reportP(c, Q(cf)+":faithful", cf.Pos(), problems, "every argument is stored, as given, in one field of the new matcher")
+	}
 	fn := p.atom
 	c.Mark(fn)
 	recv := fn.Params[0]
